@@ -201,16 +201,17 @@ func (f *frame) assumePre() {
 	}
 }
 
-// contractCall replaces a call by the callee's contract.
-func (f *frame) contractCall(callee *ssa.Function, ct *Contract, c *ssa.CallCommon, args []Term, pos token.Pos) []Term {
+// onlyLoops: a contract that only supplies loop invariants does not summarise the function.
+func (ct *Contract) onlyLoops() bool {
+	return len(ct.Requires) == 0 && len(ct.Ensures) == 0 && !ct.Trusted
+}
+
+// checkPre emits the callee's preconditions as obligations at this call site.
+func (f *frame) checkPre(callee *ssa.Function, ct *Contract, args []Term, pos token.Pos) {
 	vc := f.vc
-	// a frame standing for the callee, only to bind parameters
 	g := &frame{vc: vc, fn: callee, prefix: f.prefix, vals: map[ssa.Value]Term{}, ptrs: map[ssa.Value]*ptrDesc{}, tuples: map[ssa.Value][]Term{}, closures: map[ssa.Value]*ssa.MakeClosure{}, label: f.label}
 	for i, p := range callee.Params {
 		g.vals[p] = args[i]
-	}
-	for _, w := range ct.Watch {
-		_ = w
 	}
 	pre := f.st
 	g.st = pre
@@ -227,6 +228,22 @@ func (f *frame) contractCall(callee *ssa.Function, ct *Contract, c *ssa.CallComm
 		}
 		vc.oblige("pre", f.label, detail, f.pos(pos), goal, cl.Name, f.inlined)
 	}
+}
+
+// contractCall replaces a call by the callee's contract.
+func (f *frame) contractCall(callee *ssa.Function, ct *Contract, c *ssa.CallCommon, args []Term, pos token.Pos) []Term {
+	vc := f.vc
+	vc.usedContracts = true
+	// a frame standing for the callee, only to bind parameters
+	g := &frame{vc: vc, fn: callee, prefix: f.prefix, vals: map[ssa.Value]Term{}, ptrs: map[ssa.Value]*ptrDesc{}, tuples: map[ssa.Value][]Term{}, closures: map[ssa.Value]*ssa.MakeClosure{}, label: f.label}
+	for i, p := range callee.Params {
+		g.vals[p] = args[i]
+	}
+	for _, w := range ct.Watch {
+		_ = w
+	}
+	pre := f.st
+	f.checkPre(callee, ct, args, pos)
 	// effects
 	rs := f.havocCall(callee, callee.Signature, c.Args, false)
 	g.st = f.st
@@ -343,6 +360,44 @@ func (f *frame) genCandidates(b *ssa.BasicBlock, li *loopInfo, phis []*ssa.Phi) 
 			}
 		}
 	}
+	// lengths of loop-invariant slices indexed or sliced inside the loop, and of slice parameters
+	lenBound := func(arg ssa.Value) {
+		if ai, ok := arg.(ssa.Instruction); ok && li.blocks[ai.Block()] {
+			return
+		}
+		k := "len:" + arg.Name() + fmt.Sprint(arg.Pos())
+		if seen[k] {
+			return
+		}
+		seen[k] = true
+		bounds = append(bounds, bound{desc: "len(" + valueName(arg) + ")", get: func(f *frame) (Term, bool) {
+			t, ok := f.vals[arg]
+			if !ok {
+				return Term{}, false
+			}
+			switch t.Sort {
+			case SSlice:
+				return slLen(t), true
+			case SStr:
+				return strLen(t), true
+			}
+			return Term{}, false
+		}})
+	}
+	for blk := range li.blocks {
+		for _, in := range blk.Instrs {
+			switch x := in.(type) {
+			case *ssa.IndexAddr:
+				if _, ok := x.X.Type().Underlying().(*types.Slice); ok {
+					lenBound(x.X)
+				}
+			case *ssa.Slice:
+				if _, ok := x.X.Type().Underlying().(*types.Slice); ok {
+					lenBound(x.X)
+				}
+			}
+		}
+	}
 	for _, phi := range phis {
 		if !isInt(phi.Type()) {
 			continue
@@ -366,8 +421,25 @@ func (f *frame) genCandidates(b *ssa.BasicBlock, li *loopInfo, phis []*ssa.Phi) 
 				}})
 			}
 		}
+		if signed {
+			for _, c := range []int64{-1, 0} {
+				c := c
+				out = append(out, &autoCand{desc: fmt.Sprintf("%s >= %d", name, c), term: func(f *frame, hdr *ssa.BasicBlock) Term {
+					return sle(i64(c), get(f))
+				}})
+			}
+		}
 		for _, bd := range bounds {
 			bd := bd
+			if strings.HasPrefix(bd.desc, "len(") {
+				out = append(out, &autoCand{desc: fmt.Sprintf("(%s - %s) even", bd.desc, name), term: func(f *frame, hdr *ssa.BasicBlock) Term {
+					t, ok := bd.get(f)
+					if !ok {
+						return tTrue
+					}
+					return mkEq(app("bvand", SBV64, bvSub(t, get(f)), i64(1)), i64(0))
+				}})
+			}
 			out = append(out, &autoCand{desc: fmt.Sprintf("%s <= %s", name, bd.desc), term: func(f *frame, hdr *ssa.BasicBlock) Term {
 				t, ok := bd.get(f)
 				if !ok {
